@@ -698,6 +698,9 @@ func (in *Interp) ensureInit(pkg *ssa.Package) {
 			}
 		}
 		in.initDone[pkg] = 2
+		if path == "time" {
+			in.initTimeTables(pkg)
+		}
 		return
 	}
 	in.ensureBuilt(pkg)
@@ -2231,3 +2234,69 @@ func (in *Interp) selectStmt(fr *frame, instr *ssa.Select) Value {
 }
 
 var _ = token.ADD
+
+
+// initTimeTables: package time's initialisers are not run (they read the environment and the zone database),
+// but its pure lookup tables are needed by time.Parse / time.ParseDuration / time.Date on concrete strings:
+// daysBefore, std0x and unitMap get the values their declarations give them. Constants are read from the
+// type-checked package so that they follow the installed Go release.
+func (in *Interp) initTimeTables(pkg *ssa.Package) {
+	tb := in.tb
+	set := func(name string, v Value) {
+		g, ok := pkg.Members[name].(*ssa.Global)
+		if !ok {
+			return
+		}
+		if p, ok := in.globals[g]; ok {
+			*p = v
+		}
+	}
+	days := []uint64{0, 31, 59, 90, 120, 151, 181, 212, 243, 273, 304, 334, 365}
+	if g, ok := pkg.Members["daysBefore"].(*ssa.Global); ok {
+		if at, ok := deref(g.Type()).Underlying().(*types.Array); ok && at.Len() == int64(len(days)) {
+			arr := make(Array, len(days))
+			for i, d := range days {
+				arr[i] = tb.BV(32, d)
+			}
+			set("daysBefore", arr)
+		}
+	}
+	var std []Value
+	for _, n := range []string{"stdZeroMonth", "stdZeroDay", "stdZeroHour12", "stdZeroMinute", "stdZeroSecond", "stdYear"} {
+		c, ok := pkg.Pkg.Scope().Lookup(n).(*types.Const)
+		if !ok {
+			std = nil
+			break
+		}
+		v, _ := constant.Int64Val(c.Val())
+		std = append(std, tb.BV(64, uint64(v)))
+	}
+	if g, ok := pkg.Members["std0x"].(*ssa.Global); ok && std != nil {
+		if at, ok := deref(g.Type()).Underlying().(*types.Array); ok && at.Len() == int64(len(std)) {
+			set("std0x", Array(std))
+		}
+	}
+	// UTC = &utcLoc, utcLoc.name = "UTC" (setLoc turns &utcLoc into the nil location, as in the library)
+	if ug, ok := pkg.Members["utcLoc"].(*ssa.Global); ok {
+		if up, ok := in.globals[ug]; ok {
+			if st, ok := (*up).(Struct); ok && len(st) > 0 {
+				if _, isStr := st[0].(Str); isStr {
+					st[0] = in.mkStr("UTC")
+					set("UTC", up)
+				}
+			}
+		}
+	}
+	if g, ok := pkg.Members["unitMap"].(*ssa.Global); ok {
+		if mt, ok := deref(g.Type()).Underlying().(*types.Map); ok {
+			m := newMap(mt.Key())
+			for _, u := range []struct {
+				k string
+				v uint64
+			}{{"ns", 1}, {"us", 1e3}, {"\u00b5s", 1e3}, {"\u03bcs", 1e3}, {"ms", 1e6}, {"s", 1e9}, {"m", 60e9}, {"h", 3600e9}} {
+				in.mapSet(m, in.mkStr(u.k), tb.BV(64, u.v))
+			}
+			set("unitMap", m)
+		}
+	}
+}
